@@ -180,7 +180,13 @@ def coverage_rule(F, G, rep):
             if n.get("k") == "MethodCall" and declared(n) == HR_DIGEST:
                 idx_digest = i
                 assign = s
-    rep.ob("coverage.order", idx_match is not None and idx_digest is not None and idx_match < idx_digest, READ, "into_digest",
+    import slpterm
+    try:
+        tps = slpterm.terminator_paths(F) or []
+        order_ok = bool(tps) and all(p[0] and p[0][-1][:2] == ("call", "into_digest") and sum(1 for t in p[0] if t[:2] == ("call", "into_digest")) == 1 for p in tps if p[1] == "ok")
+    except L.Unsupported:
+        order_ok = False
+    rep.ob("coverage.order", order_ok and idx_digest is not None, READ, "into_digest",
            "into_digest must be evaluated after the terminator match (0x55 metadata / 0x7d) on the fall-through path")
     if idx_digest is not None:
         e = L.strip_try(stmts[idx_digest])
